@@ -36,6 +36,7 @@ Ltac eta := unfold set_ns; cbn [w_ns w_lab w_next]; rewrite ?ns_eta', ?world_eta
 
 Section G.
 Variable lower : lbl -> lbl.
+Variable casefold : lbl -> lbl.
 
 (* ---------- add_taxon / new_taxon / new_taxa ---------- *)
 
@@ -216,13 +217,13 @@ Definition lookup_label_v (w : world) (l : lbl) (cs : option bool) (first err : 
   end.
 
 Theorem gen_lookup_label_l (w : world) (l : lbl) (cs : option bool) (first err : bool) :
-  py__lookup_label lower w (VLabel l) (cs_val cs) (VBool first) (VBool err) = lookup_label_v w l cs first err.
+  py__lookup_label lower casefold w (VLabel l) (cs_val cs) (VBool first) (VBool err) = lookup_label_v w l cs first err.
 Proof.
   unfold py__lookup_label, lookup_label_v, lookup_all.
   assert (T : forall c : bool,
     (do or__14 <- py_for (taxa_vals (taxa (w_ns w)))
         (fun v_taxon st__15 : pyval =>
-           do v__9 <- (if c then py_attr_label w v_taxon else py_attr_lower_cased_label lower w v_taxon) ;;
+           do v__9 <- (if c then py_attr_label w v_taxon else py_Taxon_lower_cased_label lower casefold w v_taxon) ;;
            do v__10 <- py_eq (VLabel (if c then l else lower l)) v__9 ;;
            do b__11 <- py_truth v__10 ;;
            if b__11
@@ -248,16 +249,16 @@ Proof.
     - cbn [bind]. destruct (filter (matches lower w c l) (taxa (w_ns w))) as [|t r].
       + cbn. destruct err; reflexivity.
       + destruct first; [reflexivity|]. cbn. reflexivity.
-    - intros t xs. unfold matches. destruct c; cbn;
+    - intros t xs. unfold matches, py_Taxon_lower_cased_label, member_normal_form. destruct c; cbn;
         (destruct (Z.eqb _ _); cbn; [destruct first; reflexivity| reflexivity]). }
   destruct cs as [[|]|]; cbn [cs_val use_cs py_is_true py_is_none bind py_truth].
   - apply (T true).
-  - cbn [py_str_lower]. apply (T false).
-  - destruct (is_cs (w_ns w)); cbn [bind py_truth py_str_lower]; [apply (T true)| apply (T false)].
+  - cbn [py_str_norm]. apply (T false).
+  - destruct (is_cs (w_ns w)); cbn [bind py_truth py_str_norm]; [apply (T true)| apply (T false)].
 Qed.
 
 Theorem gen_findall_l (w : world) (l : lbl) (cs : option bool) :
-  py_findall lower w (VLabel l) (cs_val cs) = Ok (VList (map VTaxon (lookup_all lower w l cs))).
+  py_findall lower casefold w (VLabel l) (cs_val cs) = Ok (VList (map VTaxon (lookup_all lower w l cs))).
 Proof.
   unfold py_findall. rewrite gen_lookup_label_l. unfold lookup_label_v.
   destruct (lookup_all lower w l cs); reflexivity.
@@ -266,14 +267,14 @@ Qed.
 Definition opt_taxon_v (o : option tid) : pyval := match o with Some t => VTaxon t | None => VNone end.
 
 Theorem gen_get_taxon_l (w : world) (l : lbl) (cs : option bool) :
-  py_get_taxon lower w (VLabel l) (cs_val cs) = Ok (opt_taxon_v (lookup_first lower w l cs)).
+  py_get_taxon lower casefold w (VLabel l) (cs_val cs) = Ok (opt_taxon_v (lookup_first lower w l cs)).
 Proof.
   unfold py_get_taxon. rewrite gen_lookup_label_l. unfold lookup_label_v, lookup_first.
   destruct (lookup_all lower w l cs); reflexivity.
 Qed.
 
 Theorem gen_has_taxon_label_l (w : world) (l : lbl) (cs : option bool) :
-  py_has_taxon_label lower w (VLabel l) (cs_val cs)
+  py_has_taxon_label lower casefold w (VLabel l) (cs_val cs)
   = Ok (VBool (match lookup_first lower w l cs with Some _ => true | None => false end)).
 Proof.
   unfold py_has_taxon_label. rewrite gen_lookup_label_l. unfold lookup_label_v, lookup_first.
@@ -281,7 +282,7 @@ Proof.
 Qed.
 
 Theorem gen_has_taxa_labels_l (w : world) (ls : list lbl) (cs : option bool) :
-  py_has_taxa_labels lower w (VList (map VLabel ls)) (cs_val cs)
+  py_has_taxa_labels lower casefold w (VList (map VLabel ls)) (cs_val cs)
   = Ok (VBool (forallb (fun l => match lookup_all lower w l cs with [] => false | _ => true end) ls)).
 Proof.
   unfold py_has_taxa_labels. cbn [py_iter bind].
@@ -298,7 +299,7 @@ Definition require_taxon_v (w : world) (l : lbl) (cs : option bool) : res (world
   end.
 
 Theorem gen_require_taxon_l (w : world) (l : lbl) (cs : option bool) :
-  py_require_taxon lower w (VLabel l) (cs_val cs) = require_taxon_v w l cs.
+  py_require_taxon lower casefold w (VLabel l) (cs_val cs) = require_taxon_v w l cs.
 Proof.
   unfold py_require_taxon, require_taxon_v. rewrite gen_lookup_label_l. unfold lookup_label_v, lookup_first.
   destruct (lookup_all lower w l cs); cbn -[py_new_taxon]; [|reflexivity].
@@ -314,7 +315,7 @@ Proof.
 Qed.
 
 Theorem gen_get_taxa_l (w : world) (ls : list lbl) (cs : option bool) (first : bool) :
-  py_get_taxa lower w (VList (map VLabel ls)) (cs_val cs) (VBool first)
+  py_get_taxa lower casefold w (VList (map VLabel ls)) (cs_val cs) (VBool first)
   = Ok (VList (map VTaxon (get_taxa lower w ls cs first []))).
 Proof.
   unfold py_get_taxa. cbn [py_iter bind]. change (@nil pyval) with (map VTaxon []).
@@ -367,7 +368,7 @@ Definition remove_label_v (w : world) (l : lbl) (cs : option bool) (first : bool
   end.
 
 Theorem gen_remove_taxon_label_l (w : world) (l : lbl) (cs : option bool) (first : bool) :
-  py_remove_taxon_label lower w (VLabel l) (cs_val cs) (VBool first) = remove_label_v w l cs first true.
+  py_remove_taxon_label lower casefold w (VLabel l) (cs_val cs) (VBool first) = remove_label_v w l cs first true.
 Proof.
   unfold py_remove_taxon_label, remove_label_v. rewrite gen_lookup_label_l. unfold lookup_label_v.
   destruct (lookup_all lower w l cs) as [|t r]; [reflexivity|].
@@ -379,7 +380,7 @@ Proof.
 Qed.
 
 Theorem gen_discard_taxon_label_l (w : world) (l : lbl) (cs : option bool) (first : bool) :
-  py_discard_taxon_label lower w (VLabel l) (cs_val cs) (VBool first) = remove_label_v w l cs first false.
+  py_discard_taxon_label lower casefold w (VLabel l) (cs_val cs) (VBool first) = remove_label_v w l cs first false.
 Proof.
   unfold py_discard_taxon_label, remove_label_v. rewrite gen_lookup_label_l. unfold lookup_label_v.
   destruct (lookup_all lower w l cs) as [|t r]; [reflexivity|].
@@ -422,7 +423,7 @@ Proof.
 Qed.
 
 Theorem gen_taxa_bitmask_taxa_l (w : world) (ts : list tid) : idx_nonneg (w_ns w) ->
-  py_taxa_bitmask lower w (VKw [("taxa"%string, VList (map VTaxon ts))]) = taxa_bitmask_v w ts 0.
+  py_taxa_bitmask lower casefold w (VKw [("taxa"%string, VList (map VTaxon ts))]) = taxa_bitmask_v w ts 0.
 Proof.
   intros Hn. unfold py_taxa_bitmask, taxa_bitmask_v. cbn -[py_taxon_bitmask py_for map].
   rewrite taxa_bitmask_loop; [|intros; reflexivity| exact Hn].
@@ -431,7 +432,7 @@ Qed.
 
 Theorem gen_taxa_bitmask_labels_l (w : world) (ls : list lbl) (cs : option bool) (first : bool) :
   idx_nonneg (w_ns w) ->
-  py_taxa_bitmask lower w (VKw [("labels"%string, VList (map VLabel ls)); ("is_case_sensitive"%string, cs_val cs);
+  py_taxa_bitmask lower casefold w (VKw [("labels"%string, VList (map VLabel ls)); ("is_case_sensitive"%string, cs_val cs);
                                 ("first_match_only"%string, VBool first)])
   = taxa_bitmask_v w (get_taxa lower w ls cs first []) 0.
 Proof.
@@ -448,7 +449,7 @@ Qed.
 
 (* a keyword get_taxa does not know (what taxa_bipartition(labels=.., is_rooted=..) passes on) *)
 Theorem gen_taxa_bitmask_unexpected_keyword_l (w : world) (ls v : pyval) :
-  py_taxa_bitmask lower w (VKw [("labels"%string, ls); ("is_rooted"%string, v)]) = Err TypeErr.
+  py_taxa_bitmask lower casefold w (VKw [("labels"%string, ls); ("is_rooted"%string, v)]) = Err TypeErr.
 Proof. reflexivity. Qed.
 
 (* ---------- bitmask_taxa_list ---------- *)
